@@ -470,7 +470,8 @@ def standard_check(prop, tier, seed, mod):
     gate = coq_gate()
     pfile = "theories/Properties/%s.v" % prop
     model_files = getattr(mod, "MODEL_VO", [])
-    ok, log = coq_make(" ".join([pfile + "o"] + model_files))
+    extra = list(getattr(mod, "EXTRA_VO", [])) if tier == "thorough" else []
+    ok, log = coq_make(" ".join([pfile + "o"] + model_files + extra))
     proof_ok = ok and not gate
     theorem_fail = None
     if not ok:
